@@ -240,6 +240,14 @@ def _operator_cells(tier):
     pool = pools.POOL
     ops = ["+", "-", "*", "/", "%", "^", "==", "!=", "<", "<=", ">", ">=", "and", "or"]
     for a in pool:
+        # values wrapped by iterator outputs / thrown / nested in containers when they are displayed by the host
+        yield "y = [%s].iter().next()\nx = '{y}'" % a
+        yield "y = [%s].iter().next()\nx = '{y:?}'" % a
+        yield "y = (%s,).peekable().peek()\nx = '{[y, (y,), {k: y}]}'" % a
+        yield "y = [%s].iter().next_back()\nprint y" % a
+        yield "UNCAUGHT:throw [%s].iter().next()" % a
+        yield "UNCAUGHT:throw %s" % a
+        yield "UNCAUGHT:throw [%s, (%s,)]" % (a, a)
         yield "x = -%s" % a
         yield "x = not %s" % a
         yield "x = size %s" % a
@@ -319,7 +327,10 @@ def _operators_shard(shard, n, tier, seed, budget_s, asan=False):
             break
         if asan and re.search(r"\{v:[^}]*\d{5,}", body):
             continue      # gigabyte-wide padding is an allocation test: the sanitizer worker runs without an address-space limit
-        src = pools.PRELUDE + "try\n" + "\n".join("  " + l for l in body.split("\n")) + "\ncatch _\n  null\n"
+        if body.startswith("UNCAUGHT:"):
+            src = pools.PRELUDE + body[len("UNCAUGHT:"):] + "\n"      # the host renders the uncaught error
+        else:
+            src = pools.PRELUDE + "try\n" + "\n".join("  " + l for l in body.split("\n")) + "\ncatch _\n  null\n"
         r = w.exec(src, timeout=20, limit_ms=2000, retry_hang=False)
         rep["evaluations"] += 1; rep["cells"] += 1
         rep["distinct"].add(sha(body))
